@@ -634,6 +634,7 @@ class Enumerator:
             return
         # primitive: substitute locals (and tracked attributes)
         prim = test if substituted else subst(test, st.env)
+        prim = self._unpartial(prim)
         if self._first_walrus(prim) is not None:
             for s, v2, rs in self._hoist_walrus(prim, st, [], test):
                 if rs is not None:
@@ -1226,6 +1227,36 @@ class Enumerator:
         st.events.append(e)
         return e
 
+    def _unpartial(self, expr):
+        """p(x, k=v) where p names functools.partial(f, a, j=w) is
+        f(a, x, j=w, k=v)."""
+        if not any(isinstance(n, ast.Call) and isinstance(n.func, ast.Name)
+                   and n.func.id.startswith('SYM_') for n in ast.walk(expr)):
+            return expr
+        en = self
+
+        class T(ast.NodeTransformer):
+            def visit_Call(self, node):
+                self.generic_visit(node)
+                if isinstance(node.func, ast.Name) and \
+                        node.func.id.startswith('SYM_'):
+                    d = en.defs.get(node.func.id)
+                    if isinstance(d, ast.Call) and d.args and en.prog.resolve(
+                            en._stack[-1].module, d.func) == \
+                            'ext:functools.partial' and not any(
+                                isinstance(a, ast.Starred) for a in d.args) \
+                            and not any(k.arg is None for k in d.keywords):
+                        later = {k.arg for k in node.keywords}
+                        new = ast.Call(
+                            func=d.args[0],
+                            args=list(d.args[1:]) + list(node.args),
+                            keywords=[k for k in d.keywords
+                                      if k.arg not in later] +
+                            list(node.keywords))
+                        return ast.copy_location(new, node)
+                return node
+        return ast.fix_missing_locations(T().visit(copy.deepcopy(expr)))
+
     def _equalities(self, st):
         """{name: constant} for the tests `name == <constant>` this path
         has taken as true (names in recorded conditions denote the values
@@ -1251,7 +1282,7 @@ class Enumerator:
         Yields (state, expr, raise_status_or_None).  Calls become events and
         (unless inlined) fresh symbols.
         """
-        v = subst(value, st.env)
+        v = self._unpartial(subst(value, st.env))
         eq = self._equalities(st)
         if eq and any(isinstance(n, ast.Subscript) and isinstance(
                 n.slice, ast.Name) and n.slice.id in eq and isinstance(
@@ -2694,6 +2725,18 @@ class Enumerator:
         # one exceptional path per handler, entered from the try entry state
         if self.handler_paths:
             assigned = self._assigned_names(node.body)
+            # a name whose only binding is the plain assignment that ends
+            # the try body keeps its old value when an exception arrives:
+            # nothing can raise after the binding took place
+            last = node.body[-1] if node.body else None
+            if isinstance(last, ast.Assign) and all(
+                    isinstance(t, ast.Name) for t in last.targets):
+                kept = {t.id for t in last.targets} - self._assigned_names(
+                    node.body[:-1]) - {
+                        n.id for n in ast.walk(last.value)
+                        if isinstance(n, ast.Name) and isinstance(
+                            n.ctx, ast.Store)}
+                assigned = assigned - kept
             for h in node.handlers:
                 s = st.fork()
                 for nme in assigned:
